@@ -6,5 +6,5 @@ From HV Require Import Llsd.Llsd Llsd.LlsdNotation Llsd.LlsdNotationParse Log.Ex
 Extraction Language OCaml.
 Extraction "c18_model.ml" eval ctrace init parse compile print wf_syntax
   to_dict from_dict norm tree_of pv_of notation of_notation wf_msg plain_msg norm_msg msg_tree wfn plain
-  entry_to_dict entry_from_dict norm_entry entry_ok std_meta export_payload
+  entry_to_dict entry_from_dict norm_entry entry_ok std_meta export_payload restore_msg deser_classes
   u_init u_msg u_freeze u_touch u_get_name u_get_method u_get_seq N.add N.mul.
